@@ -28,6 +28,21 @@ def cut_prefix(case, T):
     return c
 
 
+def renumber(case):
+    """the prefix as it would stand on a sheet of its own: row numbers closed up (an order-preserving renumbering -- in a
+    spreadsheet every row added later to the IN table pushes the OUT and INTRA rows down, so the same transactions carry other
+    row numbers in the longer file).  -> (renumbered case, {new row: old row})"""
+    c = copy.deepcopy(case)
+    rows = [r for k in ("ins", "outs", "intras") for r in c[k]]
+    pos = sorted({r["row"] for r in rows if r["row"] > 0})
+    neg = sorted({r["row"] for r in rows if r["row"] < 0}, reverse=True)
+    fwd = {old: 3 + k for k, old in enumerate(pos)}
+    fwd.update({old: -(k + 1) for k, old in enumerate(neg)})
+    for r in rows:
+        r["row"] = fwd[r["row"]]
+    return c, {new: old for old, new in fwd.items()}
+
+
 def cut_day(case, D):
     c = copy.deepcopy(case)
     for k in ("ins", "outs", "intras"):
@@ -74,20 +89,26 @@ def run(tier, build, replay=None):
             continue
         k = rng.below(len(instants) - 1)
         T = instants[k]
+        renum = rng.chance(50)
+        if replay and "cut_instant" in replay:
+            T, renum = replay["cut_instant"], replay.get("renumbered_prefix", False)
         p = cut_prefix(c, T)
         if not p["ins"]:
             continue
+        back = None
+        if renum:
+            p, back = renumber(p)
         pre_cases.append(p)
-        pre_src.append((idx, T))
+        pre_src.append((idx, T, back))
         days = sorted({hist.local_day(r["ts"]) for r in c["ins"] + c["outs"] + c["intras"]})
         D = rng.choice(days) + rng.choice([0, 0, 0, 1, -1])
         day_jobs.append((idx, D))
     pre_impl = core.pool_map(_impl_full, pre_cases, init=core.impl_env_setup)
     pre_model = core.run_model([hist.line(10, hist.encode_hist(c)) for c in pre_cases])
     nontriv, mism, suspects = set(), 0, []
-    for p, (idx, T), pi, pm in zip(pre_cases, pre_src, pre_impl, pre_model):
+    for p, (idx, T, back), pi, pm in zip(pre_cases, pre_src, pre_impl, pre_model):
         c, full = base["cases"][idx], base["impl"][idx]
-        case_pair = {"case": c, "cut_instant": T}
+        case_pair = {"case": c, "cut_instant": T, "renumbered_prefix": back is not None}
         ev_us = {e["row"]: e["us"] for e in hist.taxable_oracle(c)}
         if "ok" in full:
             if "ok" not in pi:
@@ -95,9 +116,12 @@ def run(tier, build, replay=None):
                 continue
             a = [f for f in proj(full["ok"]["fractions"]) if ev_us.get(f[0], 1 << 62) <= T]
             b = proj(pi["ok"]["fractions"])
+            if back is not None:
+                b = [(back.get(f[0], f[0]), back.get(f[1], f[1])) + tuple(f[2:]) for f in b]
             if a != b:
                 d = next((x, y) for x, y in zip(a + [None], b + [None]) if x != y)
-                out.violation(f"results for events at or before instant {T} change when later transactions are added: "
+                out.violation(f"results for events at or before instant {T} change when later transactions are added"
+                              f"{' (prefix on a sheet of its own: row numbers closed up)' if back is not None else ''}: "
                               f"with continuation {d[0]}, prefix alone {d[1]}", case_pair, tags={"prefix-changed"})
             # closed years
             later_years = [hist.local_year(r["ts"]) for r in c["ins"] + c["outs"] + c["intras"] if r["ts"][0] > T]
